@@ -26,6 +26,8 @@ var c12Tokens = []string{
 	"$domain=a.com", "$client=x", "$ctag=x", "$dnstype=A", "$denyallow=a.com", "$dnsrewrite=", "$important,domain=x.org|a.com",
 	// bytes that are not UTF-8, a rune whose lower case is shorter
 	"\xff", "\u212a", "||a.com^*",
+	// modifiers cut off after "=", white space other than blank and tab
+	"$client=", "$ctag=", "$denyallow=", "$dnstype=", "\u00a0", "\v",
 }
 
 func c12Requests() []*rules.Request {
@@ -341,19 +343,32 @@ func init() {
 			var le int64
 			for _, noise := range c12Noise {
 				for mask := 1; mask < 1<<gaps; mask++ {
-					for _, term := range []string{"\n", "\r\n"} {
-						var out []string
-						for g := 0; g < gaps; g++ {
-							if mask&(1<<g) != 0 {
-								out = append(out, noise)
-							}
-							if g < len(ls) {
-								out = append(out, ls[g])
+					// uniform LF, uniform CRLF, and the two mixtures (CRLF after the
+					// inserted lines only, CRLF after the rules only)
+					for _, term := range []string{"\n", "\r\n", "noise-crlf", "rules-crlf"} {
+						var tb strings.Builder
+						put := func(line string, isNoise bool) {
+							tb.WriteString(line)
+							switch {
+							case term == "noise-crlf" && isNoise, term == "rules-crlf" && !isNoise:
+								tb.WriteString("\r\n")
+							case len(term) > 2:
+								tb.WriteString("\n")
+							default:
+								tb.WriteString(term)
 							}
 						}
-						text := strings.Join(out, term) + term
+						for g := 0; g < gaps; g++ {
+							if mask&(1<<g) != 0 {
+								put(noise, true)
+							}
+							if g < len(ls) {
+								put(ls[g], false)
+							}
+						}
+						text := tb.String()
 						le++
-						if term == "\n" {
+						if term != "\r\n" {
 							if got := c12AnswersFile(text); got != base {
 								c.Run.Violate(ev.Violation{Pred: "noise-is-inert-file-backed", Sig: map[string]any{"rules": ls, "noise": clip(noise), "gaps": mask},
 									What:   fmt.Sprintf("list %q answers %s; file-backed with noise %q inserted it answers %s", ls, clip(base), clip(noise), clip(got)),
@@ -361,7 +376,7 @@ func init() {
 							}
 						}
 						if got := c12Answers(text); got != base {
-							c.Run.Violate(ev.Violation{Pred: "noise-is-inert", Sig: map[string]any{"rules": ls, "noise": noise, "gaps": mask, "crlf": term == "\r\n"},
+							c.Run.Violate(ev.Violation{Pred: "noise-is-inert", Sig: map[string]any{"rules": ls, "noise": noise, "gaps": mask, "endings": term},
 								What:   fmt.Sprintf("list %q answers %s; with noise %q inserted (%q) it answers %s", ls, clip(base), noise, clip(text), clip(got)),
 								Replay: map[string]any{"base": joinLines(ls) + "\n", "noisy": text}})
 						}
